@@ -361,6 +361,32 @@ def kwarg(c: ast.Call, name: str) -> Optional[ast.AST]:
     return None
 
 
+def bound(fi: "FuncInfo", c: ast.Call, name: str) -> Optional[ast.AST]:
+    """the expression a call binds to parameter `name`: the keyword if written, else - for a callee defined in the same module (by name, through
+    self. / cls. / ClassName.) - the positional argument at that parameter's position (normal form N22 writes such arguments positionally)"""
+    v = kwarg(c, name)
+    if v is not None or any(isinstance(a, ast.Starred) for a in c.args):
+        return v
+    mi = fi.module
+    f = c.func
+    target = None
+    if isinstance(f, ast.Name):
+        target = mi.funcs.get(f.id) or (mi.funcs.get(f"{f.id}.__init__") if f.id in mi.classes else None)
+    elif isinstance(f, ast.Attribute) and isinstance(f.value, ast.Name):
+        if f.value.id in ("self", "cls") and fi.cls is not None:
+            target = mi.funcs.get(f"{fi.cls.name}.{f.attr}")
+        elif f.value.id in mi.classes:
+            target = mi.funcs.get(f"{f.value.id}.{f.attr}")
+    if target is None:
+        return None
+    params = list(target.params)
+    if params and params[0] in ("self", "cls") and "staticmethod" not in [norm(d) for d in target.node.decorator_list]:
+        params = params[1:]
+    if name in params and params.index(name) < len(c.args):
+        return c.args[params.index(name)]
+    return None
+
+
 def arg(c: ast.Call, idx: int, name: Optional[str] = None) -> Optional[ast.AST]:
     """Positional argument ``idx`` or keyword ``name``."""
     if idx < len(c.args) and not any(isinstance(a, ast.Starred) for a in c.args[: idx + 1]):
